@@ -16,7 +16,7 @@ OUTDIR == IOEnv.JUDGE_OUT
 
 Mis(prop, field, u, r, want, got) ==
   [kind |-> "mis", prop |-> prop, field |-> field, opt |-> u.opt, i |-> r.i, c |-> r.c, h |-> r.h, s |-> r.s,
-   w |-> r.w, want |-> want, got |-> got]
+   w |-> r.w, want |-> want, got |-> got, wl |-> IF "wl" \in DOMAIN r THEN r.wl ELSE Len(r.w)]
 If(c, x) == IF c THEN <<x>> ELSE <<>>
 
 Has(r, f) == f \in DOMAIN r
@@ -69,26 +69,28 @@ Absolute(sc, B, u, r) ==
     ELSE <<>>))
 
 (* ---------- relative checks: another option set / configuration / history against the default ---------- *)
-CmpFields == <<"ok", "pn", "tk", "et", "ex", "as", "pr", "ms", "lg">>
+CmpFields == <<"ok", "pn", "tk", "tkn", "tkh", "et", "ex", "as", "pr", "ms", "lg">>
+\* the reference observation's token count goes with the record (known-finding signatures use it)
+WithRef(m, d) == m @@ [ref |-> [tkn |-> IF Has(d, "tkn") THEN d.tkn ELSE 0, ok |-> d.ok]]
 RECURSIVE CmpFrom(_, _, _, _, _, _)
 CmpFrom(prop, u, r, d, k, fields) ==
   IF k > Len(fields) THEN <<>>
   ELSE LET f == fields[k] IN
-       If(Field(r, f) # Field(d, f), Mis(prop, "differs:" \o f, u, r, Field(d, f), Field(r, f))) \o CmpFrom(prop, u, r, d, k + 1, fields)
+       If(Field(r, f) # Field(d, f), WithRef(Mis(prop, "differs:" \o f, u, r, Field(d, f), Field(r, f)), d)) \o CmpFrom(prop, u, r, d, k + 1, fields)
 
 \* the property that owns an observed field (a step of a history that differs from the fresh
 \* instance violates C12 and the property that states what that field must be)
 Owner(f, opt) ==
   IF opt \in {"n", "ni", "ns", "nis"} THEN "C07"
   ELSE CASE f = "ok" -> "C01" [] f = "pn" -> "C13" [] f = "tk" -> "C03" [] f \in {"et", "ms"} -> "C11"
-         [] f = "ex" -> "C04" [] f \in {"as", "pr"} -> "C05" [] OTHER -> "C07"
+         [] f \in {"tkn", "tkh"} -> "C03" [] f = "ex" -> "C04" [] f \in {"as", "pr"} -> "C05" [] OTHER -> "C07"
 RECURSIVE CmpOwned(_, _, _, _, _)
 CmpOwned(u, r, d, k, fields) ==
   IF k > Len(fields) THEN <<>>
   ELSE LET f == fields[k] IN
        (IF Field(r, f) # Field(d, f)
-        THEN <<Mis("C12", "differs:" \o f, u, r, Field(d, f), Field(r, f)),
-               Mis(Owner(f, u.opt), "reuse-differs:" \o f, u, r, Field(d, f), Field(r, f))>>
+        THEN <<WithRef(Mis("C12", "differs:" \o f, u, r, Field(d, f), Field(r, f)), d),
+               WithRef(Mis(Owner(f, u.opt), "reuse-differs:" \o f, u, r, Field(d, f), Field(r, f)), d)>>
         ELSE <<>>) \o CmpOwned(u, r, d, k + 1, fields)
 
 \* index of the run with the same (i, c, h, s) in unit d, or 0.  Units emit runs in the same
@@ -108,7 +110,7 @@ IsNoAst(opt) == opt \in {"n", "ni", "ns", "nis"}
 \* derives (-noast, -noast -inline); with -switch, alternatives that cannot start are skipped
 \* legitimately, so only the derivation's own actions are required, in order
 NoAstJudge(sc, u, r) ==
-  IF r.pn # "" \/ r.h > 0 THEN <<>> ELSE
+  IF r.pn # "" \/ r.h > 0 \/ Has(sc.inputs[r.i], "rep") THEN <<>> ELSE
   LET B == BodyMap(Core(sc.grammar))
       pl == sc.plan[r.c]
       entry == IF pl.entry = "" THEN sc.grammar.rules[1].name ELSE pl.entry
@@ -135,7 +137,7 @@ Relative(sc, units, du, u, k) ==
       ELSE LET d == du[1].runs[j] IN
            IF IsNoAst(u.opt)
            THEN CmpFrom("C07", u, r, d, 1, <<"ok", "pn">>) \o NoAstJudge(sc, u, r)
-           ELSE CmpFrom("C02", u, r, d, 1, IF r.ok /\ d.ok THEN <<"ok", "pn", "tk">> ELSE <<"ok", "pn">>) \o
+           ELSE CmpFrom("C02", u, r, d, 1, IF r.ok /\ d.ok THEN <<"ok", "pn", "tk", "tkn", "tkh">> ELSE <<"ok", "pn">>) \o
                 \* C03 is stated for every generated parser: tokens under an option set that differ from the
                 \* default parser's, while the default parser's are the derivation's, are not the derivation's
                 (IF r.ok /\ d.ok /\ r.tk # d.tk /\ d.tk = Parse(BodyMap(Core(sc.grammar)), d.w, IF pl.entry = "" THEN sc.grammar.rules[1].name ELSE pl.entry).toks
@@ -161,7 +163,11 @@ RECURSIVE JudgeRuns(_, _, _, _, _, _)
 JudgeRuns(sc, B, units, du, u, k) ==
   IF k > Len(u.runs) THEN <<>>
   ELSE LET r == u.runs[k] pl == sc.plan[r.c] IN
-       (IF u.opt = "" /\ r.h = 0 /\ IsDefaultPlan(pl) THEN Absolute(sc, B, u, r) ELSE Relative(sc, units, du, u, k))
+       (IF u.opt = "" /\ r.h = 0 /\ IsDefaultPlan(pl)
+        THEN (IF Has(sc.inputs[r.i], "rep")    \* a long input: no panic, verdict by relation to the other configurations only
+              THEN If(r.pn # "", Mis("C13", "panic", u, r, "", r.pn))
+              ELSE Absolute(sc, B, u, r))
+        ELSE Relative(sc, units, du, u, k))
        \o JudgeRuns(sc, B, units, du, u, k + 1)
 
 GenMis(u, prop, field, want, got) ==
